@@ -40,7 +40,7 @@ Definition pup (c : link) (x : xlink) (k : bool) (w : wd) (now : Z) : link * xli
     match reg_classify pt with
     | Some RegNgp => (c, x, inc0, [])
     | Some Reg2 => (c, x, inc0, [])
-    | Some Reg3 => (reg3_clear c now, reg3_x x now, inc0, [])
+    | Some Reg3 => (reg3_link c now, reg3_x x now, inc0, [])
     | Some RegErr => (set_conn c false None, x, inc0, [])
     | None =>
       let c1 := set_conn c (connected c) (Some now) in
@@ -467,20 +467,28 @@ Proof. induction 1 as [|c ls [_ H] _ IH]; cbn; [reflexivity|]. rewrite H. exact 
 Lemma pup_link c x k w now :
   let r := pup c x k w now in
   let c1 := fst (fst (fst r)) in
-  cid c1 = cid c /\ window c1 = window c /\ ovf c1 = ovf c /\
+  cid c1 = cid c /\ (WInv c -> WInv c1) /\
   (forall t, spec_type (bytes_of w) = Some t -> is_reg t = false -> last_recv c1 = Some now) /\
   (spec_type (bytes_of w) = None -> r = (c, x, inc0, [])).
 Proof.
   cbv zeta. unfold pup. destruct (spec_type (bytes_of w)) as [t|].
-  2:{ cbn. repeat split; auto; discriminate. }
+  2:{ cbn [fst snd]. split; [reflexivity|]. split; [auto|]. split; [discriminate|reflexivity]. }
+  assert (Hreg3 : WInv c -> WInv (reg3_link c now)).
+  { intros [_ Ho]. pose proof wconsts. unfold WInv, reg3_link. cbn [window ovf]. split; [lia|exact Ho]. }
   destruct (reg_classify t) as [[| | |]|] eqn:Er;
-    try (cbn; repeat split; auto; try discriminate;
+    try (cbn [fst snd]; split; [reflexivity|]; split; [auto|]; split; [|discriminate];
          intros t' Ht' Hr; inversion Ht'; subst; apply reg_classify_none in Hr; congruence).
-  destruct (t =? SRT_TYPE_ACK); [cbn; repeat split; auto; discriminate|].
-  destruct (t =? SRT_TYPE_NAK); [cbn; repeat split; auto; discriminate|].
-  destruct (t =? SRTLA_TYPE_ACK); [cbn; repeat split; auto; discriminate|].
-  destruct (t =? SRTLA_TYPE_KEEPALIVE); [|cbn; repeat split; auto; discriminate].
-  destruct (waiting x); [destruct (ka_accepts _ _)|]; cbn; repeat split; auto; discriminate.
+  assert (Hfin : forall (c1 : link) (x1 : xlink) (i1 : incoming) (f1 : list wd), cid c1 = cid c -> (WInv c -> WInv c1) -> last_recv c1 = Some now ->
+            cid (fst (fst (fst (c1, x1, i1, f1)))) = cid c /\
+            (WInv c -> WInv (fst (fst (fst (c1, x1, i1, f1))))) /\
+            (forall t0, Some t = Some t0 -> is_reg t0 = false -> last_recv (fst (fst (fst (c1, x1, i1, f1)))) = Some now) /\
+            (Some t = None -> (c1, x1, i1, f1) = (c, x, inc0, []))).
+  { intros c1 x1 i1 f1 H1 H2 H3. cbn [fst]. split; [exact H1|]. split; [exact H2|]. split; [intros; exact H3|discriminate]. }
+  destruct (t =? SRT_TYPE_ACK); [apply Hfin; auto|].
+  destruct (t =? SRT_TYPE_NAK); [apply Hfin; auto|].
+  destruct (t =? SRTLA_TYPE_ACK); [apply Hfin; auto|].
+  destruct (t =? SRTLA_TYPE_KEEPALIVE); [|apply Hfin; auto].
+  destruct (waiting x); [destruct (ka_accepts _ _)|]; apply Hfin; auto.
 Qed.
 
 Lemma pup_proof_cases c x k w now :
@@ -606,7 +614,7 @@ Proof.
   rewrite (hup_main s id w now cl idx c x Hb Hf Hc Hx).
   assert (Hn : spec_type (bytes_of w) = None).
   { rewrite spec_type_nth. destruct (blen (bytes_of w) <? 2) eqn:E; [reflexivity|lia]. }
-  destruct (pup_link c x (client s) w now) as (_ & _ & _ & _ & Hp). specialize (Hp Hn).
+  destruct (pup_link c x (client s) w now) as (_ & _ & _ & Hp). specialize (Hp Hn).
   unfold post_links. rewrite Hp. cbn [fst snd]. unfold out_of, process_connection_events.
   cbn [fst snd i_fwd inc0 i_acks i_sacks i_naks apply_srt_acks apply_srtla_acks apply_naks fold_left].
   rewrite (upd_same c _ _ Hc), (upd_same x _ _ Hx).
@@ -674,7 +682,7 @@ Proof.
   intros Hc. eapply Forall2i_Forall_r; [apply (post_links_rel s idx c x w now cl Hc)|].
   cbn. intros j a b' (b & Hb & He) Ha. destruct He as (_ & _ & _ & _ & _ & He). apply He.
   destruct Hb as [(-> & -> & ->)|[_ ->]]; [|exact Ha].
-  destruct (pup_link c x (client s) w now) as (_ & Hw & Ho & _). unfold WInv in *. rewrite Hw, Ho. exact Ha.
+  destruct (pup_link c x (client s) w now) as (_ & Hw & _). apply Hw. exact Ha.
 Qed.
 
 Lemma post_links_length s idx c x w now cl : length (post_links s idx c x w now cl) = length (links (core s)).
@@ -699,7 +707,7 @@ Proof.
   destruct (Forall2i_nth _ _ _ _ (post_links_rel s idx c x w now cl Hc) idx c Hc) as (c' & Hn & b & Hb & He).
   exists c'. split; [exact Hn|]. destruct He as (_ & -> & _).
   destruct Hb as [(_ & _ & ->)|[Hne _]]; [|cbn in Hne; lia].
-  destruct (pup_link c x (client s) w now) as (_ & _ & _ & Hl & _). eapply Hl; eassumption.
+  destruct (pup_link c x (client s) w now) as (_ & _ & Hl & _). eapply Hl; eassumption.
 Qed.
 
 (** delivery proof: the stamp of link j moves only to [now], and only because an SRTLA ACK
